@@ -1,6 +1,850 @@
-//! C41 — not implemented yet.
-use mc_core::Ctx;
+//! C41 — liquidity pools stay solvent and fair.
+//!
+//! Explicit-state exploration of histories of pool operations over numeric alphabets, executed on the
+//! real engine (latest protocol ⇒ pool package v1.1), for one-, two- and multi-resource pools over
+//! resources of divisibility 18 / 2 / 0. A state is the operation history; states are merged by the
+//! exact (reserves, pool-unit supply) of the pool. The oracle is an exact-rational (BigInt) reference:
+//!
+//! * redeem pays every reserve at most the exact pro-rata share `units/supply · reserve` (a paid amount
+//!   is on the resource's grid, so "≤ exact share" is "≤ share rounded down to the divisibility");
+//! * contribute, then immediately redeem the units just minted (executed on a fork of the state after
+//!   every successful contribution) returns ≤ what the contribution took, per resource;
+//! * reserves are never negative and always equal the sum of all user-side flows (what left the
+//!   account entered the pool and vice versa: change = offered − accepted, nothing is lost);
+//! * two-/multi-resource contributions are accepted in the current reserve ratio (to the resources'
+//!   granularity), nothing is taken of a resource whose reserve is empty while units circulate;
+//! * pool-unit supply moves exactly by what the contributor received / the redeemer handed in.
+//!
+//! Statement-silent cases are informational: a contribution into a pool without circulating units
+//! (everything is accepted; if reserves were left behind the first contributor owns them too — the
+//! blueprint documents this), and `get_redemption_value` vs. what redeem pays.
+use crate::rat::*;
+use mc_core::{bfs, BfsStats, Ctx, Level, Machine};
+use mc_ledger::*;
+use num_bigint::BigInt;
+use num_traits::{Signed, Zero};
+use radix_engine::blueprints::resource::{FungibleResourceManagerField, FungibleResourceManagerTotalSupplyFieldPayload};
+use radix_engine::system::system_db_reader::SystemDatabaseReader;
+use serde_json::json;
+use std::cell::Cell;
+use std::collections::BTreeMap;
+use std::str::FromStr;
+use std::sync::atomic::{AtomicU64, Ordering};
+use std::sync::Mutex;
 
-pub fn run(_ctx: Ctx) -> ! {
-    mc_core::machinery_error("C41: not implemented")
+#[derive(Clone, Copy, Debug, PartialEq, Eq)]
+pub enum Kind {
+    One,
+    Two,
+    Multi,
+}
+
+#[derive(Clone, Debug)]
+pub struct PoolCfg {
+    pub name: String,
+    pub kind: Kind,
+    pub divs: Vec<u8>,
+    pub res: Vec<ResourceAddress>,
+    pub pool: ComponentAddress,
+    pub unit: ResourceAddress,
+}
+
+#[derive(Clone, Copy, Debug, PartialEq, Eq)]
+pub enum Units {
+    /// 1 atto of pool units
+    Smallest,
+    One,
+    /// ⌊supply / 2⌋ (in attos)
+    Half,
+    /// everything in circulation
+    All,
+}
+
+#[derive(Clone, Copy, Debug, PartialEq, Eq)]
+pub enum WAmt {
+    One,
+    /// ⌊reserve / 3⌋ in attos — usually not on the resource's grid, so the strategy's rounding matters
+    Third,
+    All,
+}
+
+#[derive(Clone, Copy, Debug, PartialEq, Eq)]
+pub enum Strat {
+    Exact,
+    RoundDown,
+    RoundUp,
+}
+
+#[derive(Clone, Debug, PartialEq)]
+pub enum Op {
+    /// offered amount per pool resource (0 = empty bucket / no bucket)
+    Contribute(Vec<Decimal>),
+    Redeem(Units),
+    /// protected_deposit(resource index, amount)
+    Deposit(usize, Decimal),
+    /// protected_withdraw(resource index, amount, strategy)
+    Withdraw(usize, WAmt, Strat),
+}
+
+/// What the property observes: reserves, unit supply, and the user's side.
+#[derive(Clone, Debug, PartialEq, Eq)]
+pub struct Obs {
+    pub r: Vec<BigInt>,
+    pub s: BigInt,
+    pub acct: Vec<BigInt>,
+    pub acct_units: BigInt,
+}
+
+pub struct St {
+    pub sim: Sim,
+    pub obs: Obs,
+    /// reference: reserves and supply as the sum of user-side flows since the root
+    pub model_r: Vec<BigInt>,
+    pub model_s: BigInt,
+    /// false while a history is being replayed to rebuild a frontier state (probes are skipped)
+    pub live: Cell<bool>,
+}
+
+pub struct PoolMachine {
+    pub root: Snap,
+    pub cfg: PoolCfg,
+    pub acct: Acct,
+    pub alphabet: Vec<Op>,
+    pub infos: Mutex<BTreeMap<String, u64>>,
+    pub probes: AtomicU64,
+}
+
+// ------------------------------------------------------------------------------------------------
+// helpers
+// ------------------------------------------------------------------------------------------------
+
+fn dec_from_attos(a: &BigInt) -> Decimal {
+    Decimal::from_str(&show(a)).expect("attos render as a decimal")
+}
+
+fn smallest(div: u8) -> Decimal {
+    dec_from_attos(&unit(div))
+}
+
+fn sim_from(snap: &Snap) -> Sim {
+    LedgerSimulatorBuilder::new().without_kernel_trace().build_from_snapshot(snap.clone())
+}
+
+fn total_supply(sim: &Sim, r: ResourceAddress) -> BigInt {
+    let reader = SystemDatabaseReader::new(sim.substate_db());
+    let p = reader
+        .read_typed_object_field::<FungibleResourceManagerTotalSupplyFieldPayload>(r.as_node_id(), ModuleId::Main, FungibleResourceManagerField::TotalSupply.field_index())
+        .expect("pool unit total supply is tracked");
+    attos(p.fully_update_and_into_latest_version())
+}
+
+pub fn observe(sim: &mut Sim, cfg: &PoolCfg, acct: &Acct) -> Obs {
+    Obs {
+        r: cfg.res.iter().map(|r| attos(sim.get_component_balance(cfg.pool, *r))).collect(),
+        s: total_supply(sim, cfg.unit),
+        acct: cfg.res.iter().map(|r| attos(sim.get_component_balance(acct.addr, *r))).collect(),
+        acct_units: attos(sim.get_component_balance(acct.addr, cfg.unit)),
+    }
+}
+
+fn strategy(s: Strat) -> WithdrawStrategy {
+    match s {
+        Strat::Exact => WithdrawStrategy::Exact,
+        Strat::RoundDown => WithdrawStrategy::Rounded(RoundingMode::ToNegativeInfinity),
+        Strat::RoundUp => WithdrawStrategy::Rounded(RoundingMode::ToPositiveInfinity),
+    }
+}
+
+fn mb() -> ManifestBuilder {
+    ManifestBuilder::new().lock_fee_from_faucet()
+}
+
+fn redeem_manifest(cfg: &PoolCfg, acct: &Acct, units: Decimal, with_quote: bool) -> TransactionManifestV1 {
+    let mut b = mb();
+    if with_quote {
+        // instruction index 1: the pool's own quote for exactly these units (read-only)
+        b = b.call_method(cfg.pool, "get_redemption_value", (units,));
+    }
+    b.withdraw_from_account(acct.addr, cfg.unit, units)
+        .take_all_from_worktop(cfg.unit, "u")
+        .call_method_with_name_lookup(cfg.pool, "redeem", |l| (l.bucket("u"),))
+        .try_deposit_entire_worktop_or_abort(acct.addr, None)
+        .build()
+}
+
+fn contribute_manifest(cfg: &PoolCfg, acct: &Acct, amounts: &[Decimal]) -> TransactionManifestV1 {
+    let mut b = mb();
+    for (i, a) in amounts.iter().enumerate() {
+        if !a.is_zero() {
+            b = b.withdraw_from_account(acct.addr, cfg.res[i], *a);
+        }
+    }
+    match cfg.kind {
+        Kind::One => b
+            .take_all_from_worktop(cfg.res[0], "b0")
+            .call_method_with_name_lookup(cfg.pool, "contribute", |l| (l.bucket("b0"),))
+            .try_deposit_entire_worktop_or_abort(acct.addr, None)
+            .build(),
+        Kind::Two => b
+            .take_all_from_worktop(cfg.res[0], "b0")
+            .take_all_from_worktop(cfg.res[1], "b1")
+            .call_method_with_name_lookup(cfg.pool, "contribute", |l| ((l.bucket("b0"), l.bucket("b1")),))
+            .try_deposit_entire_worktop_or_abort(acct.addr, None)
+            .build(),
+        Kind::Multi => {
+            let mut names = vec![];
+            for (i, a) in amounts.iter().enumerate() {
+                if !a.is_zero() {
+                    let n = format!("b{i}");
+                    b = b.take_all_from_worktop(cfg.res[i], n.clone());
+                    names.push(n);
+                }
+            }
+            b.call_method_with_name_lookup(cfg.pool, "contribute", |l| (names.iter().map(|n| l.bucket(n.clone())).collect::<Vec<_>>(),))
+                .try_deposit_entire_worktop_or_abort(acct.addr, None)
+                .build()
+        }
+    }
+}
+
+fn deposit_manifest(cfg: &PoolCfg, acct: &Acct, i: usize, x: Decimal) -> TransactionManifestV1 {
+    mb().withdraw_from_account(acct.addr, cfg.res[i], x)
+        .take_all_from_worktop(cfg.res[i], "d")
+        .call_method_with_name_lookup(cfg.pool, "protected_deposit", |l| (l.bucket("d"),))
+        .build()
+}
+
+fn withdraw_manifest(cfg: &PoolCfg, acct: &Acct, i: usize, x: Decimal, s: Strat) -> TransactionManifestV1 {
+    let b = mb();
+    let b = match cfg.kind {
+        Kind::One => b.call_method(cfg.pool, "protected_withdraw", (x, strategy(s))),
+        _ => b.call_method(cfg.pool, "protected_withdraw", (cfg.res[i], x, strategy(s))),
+    };
+    b.try_deposit_entire_worktop_or_abort(acct.addr, None).build()
+}
+
+/// the value returned by instruction `idx`, decoded
+fn output<T: ScryptoDecode>(r: &TransactionReceipt, idx: usize) -> Option<T> {
+    let TransactionResult::Commit(c) = &r.result else { return None };
+    let TransactionOutcome::Success(outs) = &c.outcome else { return None };
+    match outs.get(idx)? {
+        InstructionOutput::CallReturn(bytes) => scrypto_decode::<T>(bytes).ok(),
+        InstructionOutput::None => None,
+    }
+}
+
+fn short_class(r: &TransactionReceipt) -> String {
+    let c = receipt_class(r);
+    // keep the innermost error variant only: commit-failure:ApplicationError(XPoolError(Variant → fail:Variant
+    if let Some(rest) = c.strip_prefix("commit-failure:") {
+        let last = rest.rsplit('(').next().unwrap_or(rest);
+        format!("fail:{last}")
+    } else {
+        c
+    }
+}
+
+type V = (String, String);
+
+impl PoolMachine {
+    fn info(&self, k: &str) {
+        *self.infos.lock().unwrap().entry(k.to_string()).or_insert(0) += 1;
+    }
+
+    fn n(&self) -> usize {
+        self.cfg.res.len()
+    }
+
+    fn ctx_text(&self, pre: &Obs, op: &Op) -> String {
+        format!("pool {} (divisibilities {:?}) reserves {} unit supply {} op {:?}", self.cfg.name, self.cfg.divs, show_all(&pre.r), show(&pre.s), op)
+    }
+
+    /// common bookkeeping: user-side flows go into the model; model must equal the real pool afterwards
+    fn apply_flows_and_compare(&self, st: &mut St, pre: &Obs, post: &Obs, what: &str) -> Result<(), V> {
+        for i in 0..self.n() {
+            let d_acct = &post.acct[i] - &pre.acct[i];
+            st.model_r[i] -= d_acct;
+        }
+        st.model_s += &post.acct_units - &pre.acct_units;
+        for i in 0..self.n() {
+            if post.r[i] != st.model_r[i] {
+                return Err((
+                    "reserve-ne-flows".into(),
+                    format!(
+                        "{what}: reserve {i} is {} but the user-side flows add up to {} (account moved by {}, vault by {}): resources were lost or created",
+                        show(&post.r[i]),
+                        show(&st.model_r[i]),
+                        show(&(&post.acct[i] - &pre.acct[i])),
+                        show(&(&post.r[i] - &pre.r[i]))
+                    ),
+                ));
+            }
+            if post.r[i].is_negative() {
+                return Err(("negative-reserve".into(), format!("{what}: reserve {i} is negative: {}", show(&post.r[i]))));
+            }
+        }
+        if post.s != st.model_s {
+            return Err((
+                "unit-supply-ne-minted-minus-burned".into(),
+                format!(
+                    "{what}: pool unit supply is {} but units handed out minus units handed in add up to {}",
+                    show(&post.s),
+                    show(&st.model_s)
+                ),
+            ));
+        }
+        if post.s.is_negative() {
+            return Err(("negative-supply".into(), format!("{what}: pool unit supply negative")));
+        }
+        Ok(())
+    }
+
+    fn step_contribute(&self, st: &mut St, op: &Op, offered_dec: &[Decimal]) -> Result<String, V> {
+        let pre = st.obs.clone();
+        let what = self.ctx_text(&pre, op);
+        let receipt = exec(&mut st.sim, contribute_manifest(&self.cfg, &self.acct, offered_dec), vec![self.acct.sig.clone()])
+            .map_err(|p| (format!("panic@{}", mc_core::last_panic_location()), format!("{what}: engine panicked: {p}")))?;
+        let post = observe(&mut st.sim, &self.cfg, &self.acct);
+        st.obs = post.clone();
+        if !is_success(&receipt) {
+            self.unchanged(&pre, &post, &what)?;
+            return Ok(format!("contribute:{}", short_class(&receipt)));
+        }
+        self.apply_flows_and_compare(st, &pre, &post, &what)?;
+        let n = self.n();
+        let offered: Vec<BigInt> = offered_dec.iter().map(|d| attos(*d)).collect();
+        let accepted: Vec<BigInt> = (0..n).map(|i| &pre.acct[i] - &post.acct[i]).collect();
+        let minted = &post.acct_units - &pre.acct_units;
+        for i in 0..n {
+            if accepted[i].is_negative() || accepted[i] > offered[i] {
+                return Err((
+                    "accepted-outside-offer".into(),
+                    format!("{what}: accepted {} of resource {i}, offered {}", show(&accepted[i]), show(&offered[i])),
+                ));
+            }
+        }
+        if !minted.is_positive() {
+            return Err(("contribution-minted-nothing".into(), format!("{what}: succeeded, took {} and handed out {} pool units", show_all(&accepted), show(&minted))));
+        }
+        let any_reserve = pre.r.iter().any(|x| x.is_positive());
+        let mut label = "normal";
+        let mut roundtrip_applies = true;
+        if pre.s.is_zero() {
+            // first contribution: the statement fixes no exchange rate; everything belongs to the contributor
+            if any_reserve {
+                label = "first-into-emptied-pool-with-reserves";
+                roundtrip_applies = false;
+                if st.live.get() {
+                    self.info("contribution into a pool with reserves but no circulating units (first contributor owns the left-over; statement silent)");
+                }
+            } else {
+                label = "first";
+            }
+        } else {
+            if !any_reserve {
+                // units circulate, nothing in the pool: the blueprint refuses; the statement is silent
+                if st.live.get() {
+                    self.info("contribution accepted while units circulate and all reserves are empty (statement silent)");
+                }
+                label = "units-but-no-reserves";
+                roundtrip_applies = false;
+            }
+            // current ratio: nothing is taken of a resource the pool holds none of …
+            for i in 0..n {
+                if pre.r[i].is_zero() && !accepted[i].is_zero() && any_reserve {
+                    return Err((
+                        "ratio:took-resource-with-empty-reserve".into(),
+                        format!("{what}: took {} of resource {i} whose reserve is empty, so the accepted amounts {} are not in the pool's ratio", show(&accepted[i]), show_all(&accepted)),
+                    ));
+                }
+            }
+            // … and the rest is proportional to the reserves, to the granularity of each resource and the
+            // 36-digit precision of the platform's fixed-point numbers:
+            //   |a_i/R_i − a_j/R_j| ≤ 2·unit_i/R_i + 2·unit_j/R_j + 10^-34
+            let eps = pow10(34);
+            for i in 0..n {
+                for j in (i + 1)..n {
+                    if !pre.r[i].is_positive() || !pre.r[j].is_positive() {
+                        continue;
+                    }
+                    let (ui, uj) = (unit(self.cfg.divs[i]), unit(self.cfg.divs[j]));
+                    let lhs = (&accepted[i] * &pre.r[j] - &accepted[j] * &pre.r[i]).abs() * &eps;
+                    let rhs = (BigInt::from(2) * &ui * &pre.r[j] + BigInt::from(2) * &uj * &pre.r[i]) * &eps + &pre.r[i] * &pre.r[j];
+                    if lhs > rhs {
+                        return Err((
+                            "ratio:accepted-amounts-not-in-reserve-ratio".into(),
+                            format!(
+                                "{what}: accepted {} (offered {}): resources {i} and {j} are not in the reserve ratio {} : {}",
+                                show_all(&accepted),
+                                show_all(&offered),
+                                show(&pre.r[i]),
+                                show(&pre.r[j])
+                            ),
+                        ));
+                    }
+                }
+            }
+            if n > 1 && any_reserve {
+                // informational: is at least one offered resource used up (maximal contribution)?
+                let full = (0..n).any(|i| pre.r[i].is_positive() && (&offered[i] - &accepted[i]) < unit(self.cfg.divs[i]));
+                if !full && st.live.get() {
+                    self.info("contribution left change on every resource (not maximal; statement does not demand maximality)");
+                }
+            }
+        }
+        // contribute-then-redeem: on a fork of the state just reached, hand the new units straight back
+        if roundtrip_applies && st.live.get() {
+            self.probes.fetch_add(1, Ordering::Relaxed);
+            let mut f = sim_from(&st.sim.create_snapshot());
+            let r2 = exec(&mut f, redeem_manifest(&self.cfg, &self.acct, dec_from_attos(&minted), false), vec![self.acct.sig.clone()])
+                .map_err(|p| (format!("panic@{}", mc_core::last_panic_location()), format!("{what}; then redeem of the {} new units: engine panicked: {p}", show(&minted))))?;
+            if is_success(&r2) {
+                let back = observe(&mut f, &self.cfg, &self.acct);
+                for i in 0..n {
+                    let returned = &back.acct[i] - &post.acct[i];
+                    if returned > accepted[i] {
+                        return Err((
+                            "roundtrip-gain".into(),
+                            format!(
+                                "{what}: contribution took {} and minted {} units; redeeming exactly these units immediately returned {} of resource {i} (> {} contributed); all returns {}",
+                                show_all(&accepted),
+                                show(&minted),
+                                show(&returned),
+                                show(&accepted[i]),
+                                show_all(&(0..n).map(|k| &back.acct[k] - &post.acct[k]).collect::<Vec<_>>())
+                            ),
+                        ));
+                    }
+                }
+                return Ok(format!("contribute:ok:{label}:roundtrip-returns-at-most-contribution"));
+            } else {
+                return Ok(format!("contribute:ok:{label}:roundtrip-redeem-refused"));
+            }
+        }
+        Ok(format!("contribute:ok:{label}"))
+    }
+
+    fn unchanged(&self, pre: &Obs, post: &Obs, what: &str) -> Result<(), V> {
+        if pre != post {
+            return Err(("failed-op-changed-pool".into(), format!("{what}: the transaction did not succeed but reserves/supply/account moved: before {pre:?} after {post:?}")));
+        }
+        Ok(())
+    }
+
+    fn step_redeem(&self, st: &mut St, op: &Op, u: Units) -> Result<String, V> {
+        let pre = st.obs.clone();
+        let what = self.ctx_text(&pre, op);
+        let units: BigInt = match u {
+            Units::Smallest => BigInt::from(1),
+            Units::One => pow10(18),
+            Units::Half => &pre.s / BigInt::from(2),
+            Units::All => pre.acct_units.clone(),
+        };
+        let units_dec = dec_from_attos(&units);
+        let receipt = exec(&mut st.sim, redeem_manifest(&self.cfg, &self.acct, units_dec, true), vec![self.acct.sig.clone()])
+            .map_err(|p| (format!("panic@{}", mc_core::last_panic_location()), format!("{what}: engine panicked: {p}")))?;
+        let post = observe(&mut st.sim, &self.cfg, &self.acct);
+        st.obs = post.clone();
+        if !is_success(&receipt) {
+            self.unchanged(&pre, &post, &what)?;
+            return Ok(format!("redeem:{}", short_class(&receipt)));
+        }
+        self.apply_flows_and_compare(st, &pre, &post, &what)?;
+        let n = self.n();
+        let burned = &pre.acct_units - &post.acct_units;
+        if burned != units {
+            return Err(("redeem-burned-other-amount".into(), format!("{what}: handed in {} units, account lost {}", show(&units), show(&burned))));
+        }
+        let paid: Vec<BigInt> = (0..n).map(|i| &post.acct[i] - &pre.acct[i]).collect();
+        for i in 0..n {
+            if paid[i].is_negative() {
+                return Err(("redeem-took-from-redeemer".into(), format!("{what}: redeemer lost {} of resource {i}", show(&-&paid[i]))));
+            }
+            // paid_i ≤ units/supply · reserve_i  ⇔  paid_i · supply ≤ units · reserve_i   (supply > 0 as units ≤ supply)
+            let exact = share(&units, &pre.s, &pre.r[i]);
+            if exact.cmp_int(&paid[i]) == std::cmp::Ordering::Less {
+                return Err((
+                    "redeem-pays-more-than-share".into(),
+                    format!(
+                        "{what}: redeeming {} of {} units paid {} of resource {i}; exact pro-rata share is {} (rounded down to divisibility {}: {})",
+                        show(&units),
+                        show(&pre.s),
+                        show(&paid[i]),
+                        exact.show(),
+                        self.cfg.divs[i],
+                        show(&exact.floor_to(&unit(self.cfg.divs[i])))
+                    ),
+                ));
+            }
+        }
+        // informational: the pool's own quote (instruction 1) vs what was paid
+        if st.live.get() {
+            let quote: Option<Vec<BigInt>> = match self.cfg.kind {
+                Kind::One => output::<Decimal>(&receipt, 1).map(|d| vec![attos(d)]),
+                _ => output::<IndexMap<ResourceAddress, Decimal>>(&receipt, 1).map(|m| self.cfg.res.iter().map(|r| m.get(r).map(|d| attos(*d)).unwrap_or_default()).collect()),
+            };
+            match quote {
+                Some(q) if q == paid => self.info("get_redemption_value equals what redeem paid"),
+                Some(_) => self.info("get_redemption_value DIFFERS from what redeem paid (not part of the statement)"),
+                None => self.info("get_redemption_value output not decodable"),
+            }
+        }
+        let exact_all = (0..n).all(|i| share(&units, &pre.s, &pre.r[i]).floor_to(&unit(self.cfg.divs[i])) == paid[i]);
+        Ok(format!("redeem:ok:{}", if exact_all { "pays-floor-of-share" } else { "pays-less-than-floor-of-share" }))
+    }
+
+    fn step_deposit(&self, st: &mut St, op: &Op, i: usize, x: Decimal) -> Result<String, V> {
+        let pre = st.obs.clone();
+        let what = self.ctx_text(&pre, op);
+        let receipt = exec(&mut st.sim, deposit_manifest(&self.cfg, &self.acct, i, x), vec![self.acct.sig.clone()])
+            .map_err(|p| (format!("panic@{}", mc_core::last_panic_location()), format!("{what}: engine panicked: {p}")))?;
+        let post = observe(&mut st.sim, &self.cfg, &self.acct);
+        st.obs = post.clone();
+        if !is_success(&receipt) {
+            self.unchanged(&pre, &post, &what)?;
+            return Ok(format!("deposit:{}", short_class(&receipt)));
+        }
+        self.apply_flows_and_compare(st, &pre, &post, &what)?;
+        if post.acct_units != pre.acct_units {
+            return Err(("deposit-moved-units".into(), format!("{what}: protected_deposit changed the pool unit supply")));
+        }
+        Ok("deposit:ok".into())
+    }
+
+    fn step_withdraw(&self, st: &mut St, op: &Op, i: usize, w: WAmt, s: Strat) -> Result<String, V> {
+        let pre = st.obs.clone();
+        let what = self.ctx_text(&pre, op);
+        let x = match w {
+            WAmt::One => pow10(18),
+            WAmt::Third => &pre.r[i] / BigInt::from(3),
+            WAmt::All => pre.r[i].clone(),
+        };
+        let receipt = exec(&mut st.sim, withdraw_manifest(&self.cfg, &self.acct, i, dec_from_attos(&x), s), vec![self.acct.sig.clone()])
+            .map_err(|p| (format!("panic@{}", mc_core::last_panic_location()), format!("{what}: engine panicked: {p}")))?;
+        let post = observe(&mut st.sim, &self.cfg, &self.acct);
+        st.obs = post.clone();
+        if !is_success(&receipt) {
+            self.unchanged(&pre, &post, &what)?;
+            return Ok(format!("withdraw:{}", short_class(&receipt)));
+        }
+        self.apply_flows_and_compare(st, &pre, &post, &what)?;
+        if post.acct_units != pre.acct_units {
+            return Err(("withdraw-moved-units".into(), format!("{what}: protected_withdraw changed the pool unit supply")));
+        }
+        let got = &post.acct[i] - &pre.acct[i];
+        Ok(format!("withdraw:ok:{}", if got == x { "exact" } else if got < x { "rounded-down" } else { "rounded-up" }))
+    }
+}
+
+impl Machine for PoolMachine {
+    type Op = Op;
+    type St = St;
+
+    fn init(&self) -> St {
+        let mut sim = sim_from(&self.root);
+        let obs = observe(&mut sim, &self.cfg, &self.acct);
+        St { sim, model_r: obs.r.clone(), model_s: obs.s.clone(), obs, live: Cell::new(false) }
+    }
+
+    fn ops(&self, st: &St, _depth: usize) -> Vec<Op> {
+        st.live.set(true);
+        let no_units = st.obs.s.is_zero();
+        let no_reserves = st.obs.r.iter().all(|x| x.is_zero());
+        let mut seen_redeem = false;
+        let mut seen_withdraw = false;
+        self.alphabet
+            .iter()
+            .filter(|op| match op {
+                // without circulating units every redeem is refused the same way: keep one representative
+                Op::Redeem(_) if no_units => !std::mem::replace(&mut seen_redeem, true),
+                // nothing to withdraw: one representative
+                Op::Withdraw(..) if no_reserves => !std::mem::replace(&mut seen_withdraw, true),
+                _ => true,
+            })
+            .cloned()
+            .collect()
+    }
+
+    fn fork(&self, st: &St) -> Option<St> {
+        Some(St { sim: sim_from(&st.sim.create_snapshot()), obs: st.obs.clone(), model_r: st.model_r.clone(), model_s: st.model_s.clone(), live: Cell::new(st.live.get()) })
+    }
+
+    fn step(&self, st: &mut St, op: &Op) -> Result<String, V> {
+        match op {
+            Op::Contribute(a) => self.step_contribute(st, op, a),
+            Op::Redeem(u) => self.step_redeem(st, op, *u),
+            Op::Deposit(i, x) => self.step_deposit(st, op, *i, *x),
+            Op::Withdraw(i, w, s) => self.step_withdraw(st, op, *i, *w, *s),
+        }
+    }
+
+    /// Exact reserves and unit supply (node-id independent). Everything else the pool's future depends on
+    /// is fixed: the account holds all units in circulation (= supply) and ample resources (10^24 each);
+    /// fee dust only touches the faucet.
+    fn fingerprint(&self, st: &St) -> Vec<u8> {
+        format!("{}|{}|{}", self.cfg.name, show_all(&st.obs.r), show(&st.obs.s)).into_bytes()
+    }
+}
+
+// ------------------------------------------------------------------------------------------------
+// world and alphabets
+// ------------------------------------------------------------------------------------------------
+
+pub struct DefiWorld {
+    pub root: Snap,
+    pub acct: Acct,
+    pub pools: Vec<PoolCfg>,
+}
+
+pub fn build_world(shapes: &[(Kind, Vec<u8>)]) -> DefiWorld {
+    let mut sim = new_sim();
+    let (pk, _sk, addr) = sim.new_account(true);
+    let acct = Acct { pk, addr, sig: NonFungibleGlobalId::from_public_key(&pk) };
+    let supply = Decimal::from_str("1000000000000000000000000").unwrap(); // 10^24 of every pool resource
+    let mut pools = vec![];
+    for (kind, divs) in shapes {
+        let res: Vec<ResourceAddress> = divs.iter().map(|d| sim.create_freely_mintable_and_burnable_fungible_resource(OwnerRole::None, Some(supply), *d, addr)).collect();
+        let b = ManifestBuilder::new().lock_fee_from_faucet();
+        let b = match kind {
+            Kind::One => b.call_function(
+                POOL_PACKAGE,
+                ONE_RESOURCE_POOL_BLUEPRINT_IDENT,
+                ONE_RESOURCE_POOL_INSTANTIATE_IDENT,
+                OneResourcePoolInstantiateManifestInput { resource_address: res[0].into(), pool_manager_rule: rule!(allow_all).into(), owner_role: OwnerRole::None.into(), address_reservation: None },
+            ),
+            Kind::Two => b.call_function(
+                POOL_PACKAGE,
+                TWO_RESOURCE_POOL_BLUEPRINT_IDENT,
+                TWO_RESOURCE_POOL_INSTANTIATE_IDENT,
+                TwoResourcePoolInstantiateManifestInput {
+                    resource_addresses: (res[0].into(), res[1].into()),
+                    pool_manager_rule: rule!(allow_all).into(),
+                    owner_role: OwnerRole::None.into(),
+                    address_reservation: None,
+                },
+            ),
+            Kind::Multi => b.call_function(
+                POOL_PACKAGE,
+                MULTI_RESOURCE_POOL_BLUEPRINT_IDENT,
+                MULTI_RESOURCE_POOL_INSTANTIATE_IDENT,
+                MultiResourcePoolInstantiateManifestInput {
+                    resource_addresses: res.iter().map(|r| (*r).into()).collect(),
+                    pool_manager_rule: rule!(allow_all).into(),
+                    owner_role: OwnerRole::None.into(),
+                    address_reservation: None,
+                },
+            ),
+        };
+        let receipt = sim.execute_manifest(b.build(), vec![]);
+        let c = receipt.expect_commit_success();
+        let name = format!("{}{:?}", match kind { Kind::One => "one", Kind::Two => "two", Kind::Multi => "multi" }, divs);
+        pools.push(PoolCfg { name, kind: *kind, divs: divs.clone(), res, pool: c.new_component_addresses()[0], unit: c.new_resource_addresses()[0] });
+    }
+    DefiWorld { root: sim.create_snapshot(), acct, pools }
+}
+
+fn d(s: &str) -> Decimal {
+    Decimal::from_str(s).unwrap()
+}
+
+/// The operation alphabet of a pool (ordered simplest first, built so that amounts collide).
+pub fn alphabet(cfg: &PoolCfg, rich: bool) -> Vec<Op> {
+    let n = cfg.res.len();
+    let sm: Vec<Decimal> = cfg.divs.iter().map(|x| smallest(*x)).collect();
+    let one = d("1");
+    let three = d("3");
+    let mil = d("1000000");
+    let huge = d("700000000000000000000"); // 7·10^20
+    let zero = Decimal::ZERO;
+    let mut ops: Vec<Op> = vec![];
+    let mut push = |op: Op| {
+        if !ops.contains(&op) {
+            ops.push(op)
+        }
+    };
+    match n {
+        1 => {
+            for a in [one, three, sm[0], mil, huge] {
+                push(Op::Contribute(vec![a]));
+            }
+        }
+        2 => {
+            for (a, b) in [(one, one), (three, one), (sm[0], sm[1]), (one, mil), (mil, one), (zero, one), (one, zero), (huge, huge)] {
+                push(Op::Contribute(vec![a, b]));
+            }
+            if rich {
+                push(Op::Contribute(vec![mil, mil]));
+                push(Op::Contribute(vec![three, three]));
+            }
+        }
+        _ => {
+            let mut all = |x: Decimal| vec![x; n];
+            push(Op::Contribute(all(one)));
+            let mut v = all(one);
+            v[0] = three;
+            push(Op::Contribute(v));
+            push(Op::Contribute(sm.clone()));
+            let mut v = all(one);
+            v[1] = mil;
+            v[n - 1] = three;
+            push(Op::Contribute(v));
+            let mut v = all(one);
+            v[0] = mil;
+            push(Op::Contribute(v));
+            let mut v = all(one);
+            v[0] = zero;
+            push(Op::Contribute(v));
+            let mut v = all(zero);
+            v[0] = one;
+            push(Op::Contribute(v));
+            push(Op::Contribute(all(huge)));
+        }
+    }
+    for u in [Units::One, Units::Half, Units::All, Units::Smallest] {
+        push(Op::Redeem(u));
+    }
+    match n {
+        1 => {
+            push(Op::Deposit(0, one));
+            push(Op::Deposit(0, mil));
+            push(Op::Deposit(0, sm[0]));
+            push(Op::Withdraw(0, WAmt::One, Strat::Exact));
+            push(Op::Withdraw(0, WAmt::Third, Strat::RoundDown));
+            push(Op::Withdraw(0, WAmt::Third, Strat::RoundUp));
+            push(Op::Withdraw(0, WAmt::All, Strat::Exact));
+        }
+        2 => {
+            push(Op::Deposit(0, one));
+            push(Op::Deposit(1, one));
+            push(Op::Deposit(1, mil));
+            push(Op::Withdraw(0, WAmt::Third, Strat::RoundDown));
+            push(Op::Withdraw(1, WAmt::Third, Strat::RoundUp));
+            push(Op::Withdraw(0, WAmt::All, Strat::Exact));
+            push(Op::Withdraw(1, WAmt::All, Strat::Exact));
+            if rich {
+                push(Op::Deposit(0, mil));
+            }
+        }
+        _ => {
+            push(Op::Deposit(0, one));
+            push(Op::Deposit(1, mil));
+            push(Op::Deposit(n - 1, one));
+            push(Op::Withdraw(0, WAmt::All, Strat::Exact));
+            push(Op::Withdraw(1, WAmt::Third, Strat::RoundUp));
+            push(Op::Withdraw(n - 1, WAmt::Third, Strat::RoundDown));
+            push(Op::Withdraw(n - 1, WAmt::All, Strat::Exact));
+        }
+    }
+    ops
+}
+
+fn shapes(ctx: &Ctx) -> Vec<(Kind, Vec<u8>)> {
+    let mut v = vec![
+        (Kind::One, vec![18]),
+        (Kind::One, vec![2]),
+        (Kind::One, vec![0]),
+        (Kind::Two, vec![18, 18]),
+        (Kind::Two, vec![18, 2]),
+        (Kind::Two, vec![18, 0]),
+        (Kind::Two, vec![2, 0]),
+        (Kind::Multi, vec![18, 2, 0]),
+    ];
+    if !ctx.quick() {
+        v.push((Kind::Multi, vec![0, 18, 18]));
+    }
+    v
+}
+
+/// Re-execute a recorded history (Debug renderings of the ops) on a fresh machine; returns the outcome of each step.
+fn replay_history(m: &PoolMachine, history: &[String]) -> Vec<Result<String, V>> {
+    let mut st = m.init();
+    let mut out = vec![];
+    for h in history {
+        let ops = m.ops(&st, 0);
+        let Some(op) = m.alphabet.iter().find(|o| &format!("{o:?}") == h).or(ops.iter().find(|o| &format!("{o:?}") == h)) else {
+            out.push(Err(("replay".to_string(), format!("operation {h} is not in the alphabet of {}", m.cfg.name))));
+            break;
+        };
+        let r = m.step(&mut st, op);
+        let stop = r.is_err();
+        out.push(r);
+        if stop {
+            break;
+        }
+    }
+    out
+}
+
+pub fn run(ctx: Ctx) -> ! {
+    let shapes = shapes(&ctx);
+    let world = build_world(&shapes);
+
+    if let Some(case) = ctx.read_replay_case() {
+        let base = case.get("base").and_then(|b| b.as_str()).unwrap_or("").to_string();
+        let hist: Vec<String> = case.get("history").and_then(|h| h.as_array()).map(|a| a.iter().filter_map(|x| x.as_str().map(|s| s.to_string())).collect()).unwrap_or_default();
+        let Some(cfg) = world.pools.iter().find(|p| p.name == base) else { mc_core::machinery_error(&format!("replay: unknown pool {base}")) };
+        let m = PoolMachine { root: world.root.clone(), cfg: cfg.clone(), acct: world.acct.clone(), alphabet: alphabet(cfg, true), infos: Mutex::new(BTreeMap::new()), probes: AtomicU64::new(0) };
+        for (h, r) in hist.iter().zip(replay_history(&m, &hist)) {
+            match r {
+                Ok(c) => {
+                    println!("  {h} -> {c}");
+                    ctx.class(&c, 1);
+                }
+                Err((k, w)) => {
+                    println!("  {h} -> VIOLATION {k}: {w}");
+                    ctx.violation(k, w, case.clone());
+                }
+            }
+        }
+        ctx.finish(Level::ModelChecking, "replay of one recorded history", 0, false, serde_json::Map::new(), &[]);
+    }
+
+    // bounds: (depth for one-resource pools, depth for two/multi pools), wall cap for the whole run
+    let (d_one, d_multi, wall_cap) = if ctx.quick() { (3usize, 3usize, 50.0) } else { (5, 4, 1080.0) };
+    let mut total = BfsStats::default();
+    let mut per_pool = serde_json::Map::new();
+    let mut probes = 0u64;
+    let mut alph = serde_json::Map::new();
+    let t0 = std::time::Instant::now();
+    let mut capped_pools: Vec<String> = vec![];
+    for cfg in &world.pools {
+        let depth = if cfg.kind == Kind::One { d_one } else { d_multi };
+        let m = PoolMachine { root: world.root.clone(), cfg: cfg.clone(), acct: world.acct.clone(), alphabet: alphabet(cfg, !ctx.quick()), infos: Mutex::new(BTreeMap::new()), probes: AtomicU64::new(0) };
+        alph.insert(cfg.name.clone(), json!(m.alphabet.iter().map(|o| format!("{o:?}")).collect::<Vec<_>>()));
+        let remaining = (wall_cap - t0.elapsed().as_secs_f64()).max(1.0);
+        let s = bfs(&ctx, &m, &cfg.name, depth, 3_000_000, remaining);
+        if s.capped {
+            capped_pools.push(format!("{} (completed depth {})", cfg.name, s.depth_completed));
+        }
+        per_pool.insert(
+            cfg.name.clone(),
+            json!({"depth_bound": depth, "depth_completed": s.depth_completed, "states": s.states, "transitions": s.transitions, "per_depth_new_states": s.per_depth_states, "alphabet": m.alphabet.len(), "capped": s.capped}),
+        );
+        total.add(&s);
+        probes += m.probes.load(Ordering::Relaxed);
+        for (k, v) in m.infos.lock().unwrap().iter() {
+            ctx.info(k, *v);
+        }
+    }
+    let mut cov = total.coverage();
+    cov.insert("pools".into(), serde_json::Value::Object(per_pool));
+    cov.insert("alphabets".into(), serde_json::Value::Object(alph));
+    cov.insert("contribute_then_redeem_probes".into(), json!(probes));
+    if !capped_pools.is_empty() {
+        cov.insert("capped".into(), json!(capped_pools));
+    }
+    let exhaustive = !total.capped;
+    ctx.finish(
+        Level::ModelChecking,
+        "breadth-first over all histories of pool operations (contribute / redeem / protected_deposit / protected_withdraw with both roundings, get_redemption_value folded into redeem) up to the depth bound, per pool shape (one/two/multi resource, divisibilities 18/2/0), every transition executed on the real engine; exact BigInt-rational oracle on every transition plus a contribute-then-redeem probe on a fork after every accepted contribution; a state is non-trivial when its (reserves, unit supply) fingerprint is new",
+        total.states,
+        exhaustive,
+        cov,
+        &[
+            "states with equal exact reserves and pool-unit supply are merged (the single account holds all units and ample resources; fees are paid by the faucet)",
+            "'in the pool's current ratio' is checked to the granularity of each resource (2 smallest units) plus 10^-34 for the platform's 36-digit fixed-point precision",
+            "a contribution into a pool without circulating units and get_redemption_value are informational (statement silent)",
+            "amount alphabet: smallest unit, 1, 3, 10^6, 7*10^20, skewed pairs, zero on one side; units: 1 atto, 1, half, all; withdraw third/all with Exact/round-down/round-up",
+        ],
+    )
 }
